@@ -599,6 +599,7 @@ Section Solve.
     lo_path : forall l, sm = Some l ->
                 S dfn <= l \/ (l <= dfn /\ exists nd, nodeat s1 l nd /\ path G g (gn_goal nd));
     lo_si : NewSI (popnode s1 dfn sm) dfn;
+    lo_int : int_ok s0 s1;
   }.
 
   Lemma nodeat_pop s dfn sm nd1 d nd :
@@ -765,9 +766,9 @@ Section Solve.
         - rewrite nth_error_firstn_ge by lia. symmetry. apply nth_error_None. lia. }
       (* whatever happens to the cache, the resulting state extends [s0] *)
       assert (Hres : forall s3, stack s3 = stack s2 -> sgraph s3 = firstn dfn (sgraph s2) ->
-                interrupted s3 = interrupted s2 -> cache_exact G s3 ->
+                interrupted s3 = interrupted s2 -> sci s3 = sci s2 -> cache_exact G s3 ->
                 sg_post G cf t g m s0 (Done (gn_sol nd2, mn_min m sm) s3)).
-      { intros s3 E1 E2 E3 Hc3.
+      { intros s3 E1 E2 E3 E4 Hc3.
         assert (Hsub3 : sub s0 s3).
         { constructor.
           - intros i e Hi. rewrite E1. apply Hst2; auto.
@@ -788,6 +789,9 @@ Section Solve.
           + intros d nd H Hd. unfold nodeat in H. rewrite Hg3 in H. pose proof (nodeat_lt _ _ _ H). lia.
           + intros l Hl. destruct (mn_min_cases m sm) as [E|E]; rewrite E in Hl; [left; auto|].
             right; left. rewrite Hl in Egeb. simpl in Egeb. lia.
+          + destruct (lo_int _ _ _ _ _ _ L) as [I1 I2]. split.
+            * rewrite E4. exact I1.
+            * rewrite E3, E4. exact I2.
         - intros th Ht. left. simpl.
           assert (Ht2 : trusted th (tv th (gn_sol nd2)) s2).
           { destruct Ht as [Ht|Ht]; [left; auto|right; congruence]. }
@@ -837,6 +841,7 @@ Section Solve.
           -- apply mn_min_le_r.
         * intros l0 Hl0. destruct (mn_min_cases m (Some l)) as [E|E]; rewrite E in Hl0; [left; auto|].
           inversion Hl0; subst l0. right; right. split; [lia|]. exists ndl. split; auto.
+        * exact (lo_int _ _ _ _ _ _ L).
       + intros th Ht.
         destruct (si_node _ _ S2 th dfn nd2 Hnew Ht) as [A _]. simpl in A.
         destruct (Bool.bool_dec (coind (get G (gn_goal nd1))) (tv th (gn_sol nd1))) as [Eq|Ne].
@@ -865,6 +870,7 @@ Section Solve.
                          nodeat s1 dfn (mkGnode (gn_goal nd) v (gn_depth nd) (gn_links nd));
     es_cache : cache s1 = cache sa;
     es_int : interrupted s1 = interrupted sa;
+    es_sci : sci s1 = sci sa;
   }.
 
   Definition reset_flag (s : state) (depth : nat) : state :=
@@ -889,7 +895,7 @@ Section Solve.
   Lemma exit_state_rollback sa s1 depth dfn v :
     exit_state sa s1 depth dfn v true -> exit_state sa (rollback_to s1 (S dfn)) depth dfn v false.
   Proof.
-    intros E. destruct E as [E1 E2 E3 E4 [nd [E5 E6]] E7 E8]. constructor; auto.
+    intros E. destruct E as [E1 E2 E3 E4 [nd [E5 E6]] E7 E8 E9]. constructor; auto.
     - intros d Hd. change (sgraph (rollback_to s1 (S dfn))) with (firstn (S dfn) (sgraph s1)).
       rewrite orb_false_l. destruct (d <? dfn) eqn:El.
       + apply Nat.ltb_lt in El. rewrite nth_error_firstn by lia. rewrite (E4 d Hd). rewrite orb_true_l. reflexivity.
@@ -913,6 +919,7 @@ Section Solve.
     li_slen : S depth = length (stack s);
     li_glen : S dfn = length (sgraph s);
     li_flag : exists e, nth_error (stack s) depth = Some e /\ se_cycle e = false;
+    li_int : int_ok s0 s;
   }.
 
   Lemma loop_in_top s0 s g depth dfn : loop_in s0 s g depth dfn -> topgoal s g.
@@ -928,9 +935,9 @@ Section Solve.
     Hypothesis F : frame s sa g None m.
     Hypothesis NC : forall th, trusted th (tv th v) sa -> NJ1 G th (tv th v) (J th (tv th v) sa m g) g.
 
-    Let Wa : WF sa := fr_wf _ _ _ _ _ _ F.
-    Let Sa : SI sa := fr_si _ _ _ _ _ _ F.
-    Let Ea : ext s sa := fr_ext _ _ _ _ _ _ F.
+    Let Wa : WF sa := fr_wf _ _ _ _ _ _ _ F.
+    Let Sa : SI sa := fr_si _ _ _ _ _ _ _ F.
+    Let Ea : ext s sa := fr_ext _ _ _ _ _ _ _ F.
 
     Lemma iter_node : exists nda, nodeat sa dfn nda /\ gn_goal nda = g /\ gn_depth nda = Some depth /\
                                   gn_links nda = Some dfn.
@@ -1202,6 +1209,8 @@ Section Solve.
       + apply (NewSI_node g depth dfn sa m v NC s1 true E m (fun _ _ _ => False)); auto.
         * intros th' b x Hb Ht' Hc [HA|[HG _]]; auto.
         * intros th' b _ _ _ x [].
+    - eapply int_ok_trans; [apply (li_int _ _ _ _ _ LI)|]. eapply int_ok_trans; [apply (fr_int _ _ _ _ _ _ _ F)|].
+      apply int_ok_eq; [rewrite (es_sci _ _ _ _ _ _ E); apply le_n|apply (es_int _ _ _ _ _ _ E)].
   Qed.
 
   Lemma exit_drop_no_later s0 s g depth dfn sa m v s1
@@ -1273,6 +1282,8 @@ Section Solve.
         * right; left; right. exists d', nd', Xp. repeat split; auto; apply HX; auto.
         * assert (Hml : mn_le m (gn_links nd')) by (apply (fr_new _ _ _ _ _ _ _ F d' nd' Hn'); lia).
           destruct (Hleaf th' b (gn_links nd') y Ht' Hb Hc Hml Hy) as [H1|[->|H1]]; auto.
+    - eapply int_ok_trans; [apply (li_int _ _ _ _ _ LI)|]. eapply int_ok_trans; [apply (fr_int _ _ _ _ _ _ _ F)|].
+      apply int_ok_eq; [rewrite (es_sci _ _ _ _ _ _ E); apply le_n|apply (es_int _ _ _ _ _ _ E)].
   Qed.
 
   (** the loop goes round again *)
@@ -1313,6 +1324,8 @@ Section Solve.
         * pose proof (exit_drop_no_later s0 s g depth dfn sa m v s1 LI F E (S dfn) nd En). lia.
         * apply nth_error_None in En. lia.
     - destruct (es_top _ _ _ _ _ _ E) as [e [_ He1]]. eexists. split; [exact He1|reflexivity].
+    - eapply int_ok_trans; [apply (li_int _ _ _ _ _ LI)|]. eapply int_ok_trans; [apply (fr_int _ _ _ _ _ _ _ F)|].
+      apply int_ok_eq; [rewrite (es_sci _ _ _ _ _ _ E); apply le_n|apply (es_int _ _ _ _ _ _ E)].
   Qed.
 
   Lemma snsg_S f g depth dfn s :
@@ -1371,11 +1384,11 @@ Section Solve.
   Qed.
 
   Lemma sg_post_core s s' t g m r :
-    WF s -> SI s -> same_core s s' -> sg_post G cf t g m s' r -> sg_post G cf t g m s r.
+    WF s -> SI s -> same_core s s' -> int_ok s s' -> sg_post G cf t g m s' r -> sg_post G cf t g m s r.
   Proof.
-    intros W S C H. destruct r as [[v m'] s''|p s''|]; simpl in *; auto.
+    intros W S C I H. destruct r as [[v m'] s''|p s''|]; simpl in *; auto.
     destruct H as [F HJ]. split; auto.
-    eapply frame_trans; [apply (frame_core s s' g m W S C)|exact F].
+    eapply frame_trans; [apply (frame_core s s' g m W S C I)|exact F].
   Qed.
 
   Lemma Ctx_core s s' t g : same_core s s' -> Ctx s t g -> Ctx s' t g.
@@ -1396,7 +1409,7 @@ Section Solve.
       + (* solve_goal *)
         intros g m s t W S Hg C. rewrite solve_goal_S. cbv zeta.
         assert (C1 : same_core s (bump_work s)) by (repeat split; auto).
-        apply (sg_post_core s (bump_work s) t g m _ W S C1).
+        apply (sg_post_core s (bump_work s) t g m _ W S C1 (int_ok_refl cf _)).
         pose proof (WF_eq s (bump_work s) eq_refl eq_refl W) as W1.
         pose proof (SI_core s (bump_work s) W C1 S) as S1.
         pose proof (Ctx_core _ _ _ _ C1 C) as Cx.
@@ -1415,7 +1428,7 @@ Section Solve.
              destruct (tick_cases s2) as [Et2|Et2]; rewrite Et2; simpl bind; [split; auto; exact (si_cache _ _ S1)|].
              set (s3 := bump_ticks s2).
              assert (C3 : same_core s1 s3) by (repeat split; auto).
-             apply (sg_post_core s1 s3 t g m _ W1 S1 C3).
+             apply (sg_post_core s1 s3 t g m _ W1 S1 C3 (int_ok_refl cf _)).
              pose proof (WF_eq s1 s3 eq_refl eq_refl W1) as W3.
              pose proof (SI_core s1 s3 W1 C3 S1) as S3.
              pose proof (Ctx_core _ _ _ _ C3 Cx) as C3x.
@@ -1429,7 +1442,8 @@ Section Solve.
                - eexists. split; [apply nodeat_push_new|]. split; reflexivity.
                - rewrite stack_push, app_length. simpl. lia.
                - unfold push_node. simpl. rewrite app_length. simpl. lia.
-               - eexists. rewrite stack_push. split; [apply nth_error_snoc|reflexivity]. }
+               - eexists. rewrite stack_push. split; [apply nth_error_snoc|reflexivity].
+               - apply int_ok_eq; [apply le_n|reflexivity]. }
              pose proof (IHlp _ _ _ _ _ LI) as HL.
              destruct (solve_new_subgoal G cf f g (length (stack s3)) (length (sgraph s3)) (push_node s3 g))
                as [sm sL|p sL|]; simpl bind; simpl in HL; auto.
